@@ -6,6 +6,11 @@ ALL = ["C%02d" % i for i in range(1, 35)]
 
 # id -> (category, technique, text, note, design_ref)
 CHECKS = {
+ "C01": ("model_checking",
+         "explicit-state BFS over registration histories of the real handler, then exhaustive enumeration of PUBLISH variants in every reached state, checked against a client-side reference of what each topic id denotes",
+         "BFS over registration/subscription histories (depth 2, thorough 3) after a connect; in every reached state all 2304 PUBLISH flag/type/id/msgid/payload variants plus payload sizes across the header-form boundary and MaxPayloadLength are sent; the MQTT byte stream is parsed independently and compared with the reference (exactly one PUBLISH with same payload/retain/DUP/QoS/msg id and the denoted topic; none when the id denotes nothing).",
+         "Default schedule; ids in flight between the two sides' views (REGISTER/SUBSCRIBE not yet acknowledged) accept both outcomes.",
+         "3 C01"),
  "C05": ("exploration",
          "exhaustive enumeration of all small predefined-topic maps against a precedence reference",
          "All 4096 maps {c1,*} x id{1,2,3} -> {absent,\"\",x,y} (empty tables both missing and present) and the repository's own topics.yaml, for client ids {c1,c2,*}, all ids 0..4 and all names: GetTopicName equals the reference precedence; every id GetTopicID returns reads back as the same name; an id is found whenever one resolves to the name.",
